@@ -184,6 +184,10 @@ class SparselyBin(Factory, Container):
                 raise ContainerException(
                     f"cannot add SparselyBins because origin differs ({self.origin} vs {other.origin})"
                 )
+            if self.contentType != other.contentType:
+                raise ContainerException(
+                    f"cannot add SparselyBins because bin type differs ({self.contentType} vs {other.contentType})"
+                )
 
             out = SparselyBin(
                 self.binWidth,
@@ -216,6 +220,10 @@ class SparselyBin(Factory, Container):
             if self.origin != other.origin:
                 raise ContainerException(
                     f"cannot add SparselyBins because origin differs ({self.origin} vs {other.origin})"
+                )
+            if self.contentType != other.contentType:
+                raise ContainerException(
+                    f"cannot add SparselyBins because bin type differs ({self.contentType} vs {other.contentType})"
                 )
             self.entries += other.entries
             for i, v in other.bins.items():
